@@ -86,7 +86,7 @@ def chains(cells, tier, rng):
     for c in cells:
         inlang.setdefault(c['slot'], set()).add(c['kind'])
     for c in cells:
-        tc = c['kind'] in ('tuple1', 'tuple2')
+        tc = c['kind'] in ('tuple1', 'tuple2', 'startuple1', 'startuple2')
         if c['kind'] == 'starred':
             text = E.render(c['slot'], E.KIND_TEXT[c['kind']], False)
         else:
@@ -103,7 +103,7 @@ def chains(cells, tier, rng):
         for g in sorted(inlang.get(first, ())):
             if g == 'starred':
                 continue
-            tc = c['kind'] in ('tuple1', 'tuple2')
+            tc = c['kind'] in ('tuple1', 'tuple2', 'startuple1', 'startuple2')
             text = E.render(c['slot'], E.kind_text(c['kind'], inner=E.KIND_TEXT[g]), True, tc)
             deep.append(('chain:%s:%s:%s' % (c['slot'], c['kind'], g), text))
     total_deep = len(deep)
@@ -186,7 +186,7 @@ def run(args, rep):
         except SyntaxError:
             return None
     for c in cells:
-        tc = c['kind'] in ('tuple1', 'tuple2')
+        tc = c['kind'] in ('tuple1', 'tuple2', 'startuple1', 'startuple2')
         tb = P(E.render(c['slot'], E.KIND_TEXT[c['kind']], False, tc))
         if c['kind'] == 'starred':
             truth = tb is not None
